@@ -190,18 +190,38 @@ class Ctx:
                     len(tn[2]) == len(vn[2]) and tn[2] and all(self.w.bit(x) for x in tn[2]) and all(self.w.bit(x) for x in vn[2]):
                 for k_, (tp, vp) in enumerate(zip(tn[2], vn[2])):
                     out.append(dsl.Driver(d_.domain, tp, vp, d_.dsl, d_.gen, tuple(d_.order) + (k_,), d_.lineno, d_.seqno))
+            elif tn[0] == 'call' and tn[1] == ('name', 'Cat') and len(tn[2]) == 1 and tn[2][0][0] == 'listacc' and \
+                    vn[0] == 'call' and vn[1][0] == 'attr' and vn[1][2] == 'replicate' and len(vn[2]) == 1 and not vn[3] and \
+                    vn[2][0] == ('call', ('name', 'len'), (tn[2][0],), ()) and self.w.bit(vn[1][1]) and tn[2][0][1] in self.t.lists and \
+                    not self.t.lists[tn[2][0][1]].home and not any(fr[0] == 'for' for fr in d_.gen) and \
+                    all(self.w.bit(ir.norm(t_, self.nctx)) for t_, g_, l_ in self.t.lists[tn[2][0][1]].items):
+                # Cat(one-bit targets).eq(s.replicate(len(targets))): every target gets s
+                A = self.t.lists[tn[2][0][1]]
+                for k_, (ta, ga, la) in enumerate(A.items):
+                    out.append(dsl.Driver(d_.domain, ta, vn[1][1], d_.dsl, self._nonempty_dropped(d_.gen, ga) + tuple(ga), tuple(d_.order) + (k_,), d_.lineno, d_.seqno))
             elif tn[0] == 'call' and tn[1] == ('name', 'Cat') and vn[0] == 'call' and vn[1] == ('name', 'Cat') and \
                     len(tn[2]) == 1 and len(vn[2]) == 1 and tn[2][0][0] == 'listacc' and vn[2][0][0] == 'listacc' and \
                     self._parallel_lists(tn[2][0], vn[2][0], d_):
                 # Cat(targets).eq(Cat(values)) with two lists filled side by side, each target as wide as its value: the k-th
                 # target gets the k-th value, in the generation context of the append
                 A, B = self.t.lists[tn[2][0][1]], self.t.lists[vn[2][0][1]]
-                keep = tuple(fr for fr in d_.gen if not (fr[0] == 'pyif' and ir.norm(fr[1], self.nctx) in (tn[2][0], vn[2][0])))
                 for k_, ((ta, ga, la), (vb, gb, lb)) in enumerate(zip(A.items, B.items)):
-                    out.append(dsl.Driver(d_.domain, ta, vb, d_.dsl, keep + tuple(ga), tuple(d_.order) + (k_,), d_.lineno, d_.seqno))
+                    out.append(dsl.Driver(d_.domain, ta, vb, d_.dsl, self._nonempty_dropped(d_.gen, ga) + tuple(ga), tuple(d_.order) + (k_,), d_.lineno, d_.seqno))
             else:
                 out.append(d_)
         self.t.drivers[:] = out
+
+    def _nonempty_dropped(self, gen, item_gen):
+        """The statement's own generation frames, without `if xs:` tests on a list that has an element whenever this item exists
+        (an append under exactly the item's generation context): in the item's context that test is true."""
+        out = []
+        for fr in gen:
+            if fr[0] == 'pyif' and fr[2]:
+                cn = ir.norm(fr[1], self.nctx)
+                if cn[0] == 'listacc' and cn[1] in self.t.lists and any(tuple(g_) == tuple(item_gen) for v_, g_, l_ in self.t.lists[cn[1]].items):
+                    continue
+            out.append(fr)
+        return tuple(out)
 
     def _parallel_lists(self, la, lb, d_):
         A, B = self.t.lists.get(la[1]), self.t.lists.get(lb[1])
@@ -220,6 +240,9 @@ class Ctx:
                     same_width = True
             if self.w.bit(ta_) and self.w.bit(vb_):
                 same_width = True
+            if not same_width:
+                wa, wb = self.width_of(ta_), self.width_of(vb_)
+                same_width = wa is not None and wa == wb
             if not same_width:
                 return False
         return True
@@ -544,10 +567,26 @@ class Ctx:
             if ctor[0] == 'call' and ctor[1] == ('name', 'Signal') and ctor[2] and ctor[2][0][0] != 'call':
                 return ir.norm(ctor[2][0], self.nctx)
             return None
+        # <field>.port.r_data / w_data: FieldPort.Signature declares both with the port's shape
+        if e[0] == 'attr' and e[2] in ('r_data', 'w_data') and e[1][0] == 'attr' and e[1][2] == 'port' and self._fieldport_data_is_shape():
+            return ir.norm(ir.parse("Shape.cast(P.shape).width", {"P": e[1]}), self.nctx)
         try:
             return self.declared_width(e)
         except Exception:
             return None
+
+    def _fieldport_data_is_shape(self):
+        if not hasattr(self, "_fp_ok"):
+            self._fp_ok = False
+            try:
+                sig = self.idx.find_func("FieldPort.Signature.__init__")
+                self._fp_ok = all(any(isinstance(n, ast.Dict) and any(
+                    isinstance(k, ast.Constant) and k.value == nm and isinstance(v_, ast.Call) and ast.unparse(v_.func) in ("In", "Out") and
+                    len(v_.args) == 1 and ast.unparse(v_.args[0]) in ("self.shape", "shape", "self._shape") for k, v_ in zip(n.keys, n.values))
+                    for n in ast.walk(sig.node)) for nm in ("r_data", "w_data"))
+            except Exception:
+                pass
+        return self._fp_ok
 
     def _mask_to_mux(self, x):
         """X & s.replicate(n) with s one bit and n the width of X  ==  Mux(s, X, 0)."""
@@ -968,9 +1007,19 @@ class CtorCtx(Ctx):
         """(IR, gen frames, lineno) of call statements / sub-calls whose function is `<x>.attr` or `attr`."""
         out = []
         for e, gen, dsl_, ln in self.t.calls:
+            if e[0] == 'assigned':
+                continue
             for x in ir.walk(e if e[0] != 'store' else e[2]):
                 if x[0] == 'call' and (x[1][0] == 'attr' and x[1][2] == attr or x[1] == ('name', attr)):
                     out.append((self.norm(x), gen, ln))
+        # calls whose result was only bound to names and that no other statement mentions
+        seen = {x for x, g_, l_ in out}
+        for e, gen, dsl_, ln in self.t.calls:
+            if e[0] == 'assigned':
+                x = e[1]
+                if x[0] == 'call' and (x[1][0] == 'attr' and x[1][2] == attr or x[1] == ('name', attr)) and self.norm(x) not in seen:
+                    out.append((self.norm(x), gen, ln))
+                    seen.add(self.norm(x))
         return out
 
 
